@@ -3,6 +3,6 @@ CONSTANTS
   Family = "cases"
   MaxN = 4
   EmptyKey = FALSE
-  DesignKeys = 3
-\* INVARIANT CasesConsistent
+  DesignKeys = 2
+INVARIANT CasesConsistent
 CHECK_DEADLOCK FALSE
